@@ -235,3 +235,5 @@ theorem division_is_correctly_rounded (a b r : Dec) (ha : a.coeff ≠ 0) (hb : b
 /-- non-vacuity of the carry case of `fix`: 28 nines and a five round up to 10^27 · 10^2 -/
 example : (fix ⟨false, 99999999999999999999999999995, 0⟩).toOption = some ⟨false, 10 ^ 27, 2⟩ := by decide +kernel
 
+
+end SqProps.C08
